@@ -1,6 +1,7 @@
 package main
 
 import (
+	"runtime"
 	"sync/atomic"
 	"encoding/json"
 	"flag"
@@ -70,9 +71,19 @@ func main() {
 	fname := fs.String("f", "", "function (short name substring) for func/dump")
 	oname := fs.String("o", "", "obligation name substring for dump")
 	timeout := fs.Int("timeout", 0, "per-solver timeout in seconds")
-	workers := fs.Int("j", 8, "parallel obligations")
+	workers := fs.Int("j", 0, "parallel obligations (0 = number of CPUs minus two, between 4 and 14)")
 	verbose := fs.Bool("v", false, "verbose")
 	fs.Parse(os.Args[2:])
+	if *workers <= 0 {
+		w := runtime.NumCPU() - 2
+		if w < 4 {
+			w = 4
+		}
+		if w > 14 {
+			w = 14
+		}
+		*workers = w
+	}
 	if *tier == "" {
 		*tier = "quick"
 	}
